@@ -1311,7 +1311,7 @@ func (b *BaseStore) pubSubChanListener(topic iface.PubSubTopic) error {
 			switch evt := e.(type) {
 			case *iface.EventPubSubJoin:
 				// notify store that we have a new peers
-				if err := newPeerEmitter.Emit(stores.NewEventNewPeer(evt.Peer)); err != nil {
+				if err := newPeerEmitter.Emit(stores.NewEventNewPeer(b.Address(), evt.Peer)); err != nil {
 					b.logger.Error("unable to emit event new peer", zap.Error(err))
 				}
 
